@@ -20,25 +20,26 @@ let fr_str = function
 
 let () =
   (* relay.resp <status> <head> <clen|-> <chunked> <client11> <k> <ev>... *)
-  let resp_one = (fun (st :: hd :: cl :: ch :: c11 :: k :: evs) ->
+  (* <client11> is a comma-separated list: one transaction per client (the later ones are answered from the
+     stored object, i.e. from the same origin event sequence); results are joined by " ; " *)
+  reg "relay.resp" (fun (st :: hd :: cl :: ch :: c11s :: k :: evs) ->
+      flush stdout;   (* the previous answer: keeps the driver's stall detector informed *)
       let h = { h_status = n_of_string st; h_head = (hd = "1"); h_clen = opt_n cl; h_chunked = (ch = "1") } in
-      let (cf, (stream, closed)) = relay h (c11 = "1") (List.map ev_of evs) (n_of_string k) in
-      let ((body, complete), rest) = ref_read cf stream closed in
-      Printf.sprintf "st=%s fr=%s body=%s complete=%s stray=%d closed=%s" st (fr_str cf) (digest body) (b2s complete)
-        (List.length rest) (if complete then "-" else b2s closed)) in
-  (* several transactions on one line: relay.resp <args> ; relay.resp <args> *)
-  reg "relay.resp" (fun args ->
-      let rec groups cur acc = function
-        | [] -> List.rev (List.rev cur :: acc)
-        | ";" :: "relay.resp" :: rest -> groups [] (List.rev cur :: acc) rest
-        | x :: rest -> groups (x :: cur) acc rest in
-      String.concat " ; " (List.map resp_one (groups [] [] args)));
+      let events = List.map ev_of evs in
+      String.concat " ; " (List.map (fun c11 ->
+        let (cf, (stream, closed)) = relay h (c11 = "1") events (n_of_string k) in
+        let ((body, complete), rest) = ref_read cf stream closed in
+        Printf.sprintf "st=%s fr=%s body=%s complete=%s stray=%d closed=%s" st (fr_str cf) (digest body) (b2s complete)
+          (List.length rest) (if complete then "-" else b2s closed)) (String.split_on_char ',' c11s)));
   (* relay.req <clen|-> <len:N|chunked> <abort> <seg hex>... *)
   reg "relay.req" (fun (cl :: up :: ab :: segs) ->
+      flush stdout;
       let upm = if up = "chunked" then UpChunked else UpLen (n_of_string (String.sub up 4 (String.length up - 4))) in
       let q = rq_fair bodypipe_max_capacity upm (opt_n cl) (List.map bytes_of_hex segs) (ab = "1") in
       let (body, complete) = ref_read_up upm (up_stream upm q) in
-      if complete then Printf.sprintf "up body=%s complete=1" (digest body) else "up complete=0");
+      if complete then Printf.sprintf "up fr=ok body=%s complete=1 arrivals=1 client=200" (digest body) else "up complete=0");
+  (* Content-Length: 0 request: no body pipe is created (expectBody = chunked || content_length > 0) *)
+  reg "relay.req0" (fun _ -> Printf.sprintf "up fr=ok body=%s complete=1 arrivals=1 client=200" (digest []));
   (* relay.dechunk <hex>: the reference chunked reader *)
   reg "relay.dechunk" (fun [h] ->
       let ((d, out), rest) = crun CSize0 (bytes_of_hex h) in
